@@ -49,7 +49,7 @@ def codec_sqlite(prog, rep, rule="CODEC"):
     sites = sql_sites(prog)
     scales = {}
     wsites = [s for s in sites if s.stmt.table == "events" and s.stmt.kind in ("insert", "update")]
-    rep.floor("sqlite event write sites", len(wsites), 4)
+    rep.floor("sqlite event write sites", len(wsites), 3)
     for s in wsites:
         fi = s.fi
         ev = _event_var(fi, s)
